@@ -283,6 +283,30 @@ def shard(ctx):
                         ctx.violation("order:type-blocks-of-one-type:%s" % label, "%s\n--- base\n%s--- variant\n%s" % (why, base_text, text), {"base": base_text, "variant": text, "data": tdoc, "rel": ["same"]})
                     else:
                         ctx.res.distinct.add(("type-blocks", tuple(combo), label))
+    # ---- keys and rule names that begin like a keyword (`origin`, `order_ok`, `ORDER`, `notes`, `inner`, `whenever`, `somekey`): a clause
+    #      line that starts with them, after any other clause, in every line order
+    if ctx.mine(5):
+        import itertools as _it4
+        kdoc = json.dumps({"listener": {"port": 443}, "origin": {"protocol": "http"}, "ORDER": 1, "notes": "x", "inner": 5, "whenever": True, "somekey": 1, "letter": "a"})
+        klines = ["listener.port == 443", 'origin.protocol == "https"', "ORDER == 2", "order_ok", 'notes == "y"', "inner == 6", "whenever == false", "somekey == 2", 'letter == "b"']
+        for combo in ([0, 1], [0, 2], [0, 3], [0, 4], [0, 5], [0, 7], [0, 8], [0, 1, 2, 3]):      # (not #6: a key that begins with `when` does not parse at all)
+            outs = []
+            for pm in _it4.permutations(combo):
+                text = "rule order_ok {\n    listener.port == 1\n}\nrule r {\n" + "".join("    %s\n" % klines[i] for i in pm) + "}\n"
+                st, _ = status_map(ctx, text, kdoc)
+                ctx.res.cases += 1
+                outs.append((text, st))
+            ctx.res.counts["keyword_prefix_line_groups"] += 1
+            if any(not isinstance(st, dict) for _t, st in outs):
+                ctx.inconclusive("keyword-like-group-error (proviso)")      # e.g. a key that begins with `when` is rejected in every order
+                continue
+            for text, st in outs[1:]:
+                why = compare(outs[0][1], st, ("same",))
+                if why:
+                    ctx.violation("order:keyword-like-names", "%s\n--- base\n%s--- variant\n%s" % (why, outs[0][0], text), {"base": outs[0][0], "variant": text, "data": kdoc, "rel": ["same"]})
+                    break
+            else:
+                ctx.res.distinct.add(("keyword-like", tuple(combo)))
     nbase = 90 if ctx.quick else 2600
     vorders = set()
     rpatterns = set()
